@@ -2,7 +2,7 @@
 import json
 import random
 
-from vlib import Broken, Verdict, read_ndjson, write_ndjson, require_coverage
+from vlib import unreproduced as vlib_unreproduced, Broken, Verdict, read_ndjson, write_ndjson, require_coverage
 
 TRACE_CFG = "SPECIFICATION Spec\nCHECK_DEADLOCK TRUE\n"
 ACTIONS = ["Greet", "SelectModule", "CheckAcl", "ParseArgs", "Gate", "Session"]
@@ -50,8 +50,7 @@ def check(w):
         byid = {s["id"]: s for s in scen}
         obs2, _ = run(w, [byid[i] for i in sorted(rej)], "confirm")
         rej2, _, _ = validate(w, obs2, "confirm")
-        if set(rej) - set(rej2):
-            raise Broken("rejections not reproduced on re-run")
+        vlib_unreproduced(v, rej, rej2)
         for o in obs2:
             if o["id"] in rej2:
                 v.violation({"kind": o["kind"], "changed": o["changed"], "refused": o["refused"], "dry_run": "n" in o["flags"], "sub": o["sub"], "missing": o["missing"],
